@@ -55,6 +55,7 @@ def plan(tier):
     for rel in ('fft', 'affine', 'rename_ordered', 'rename_reordering', 'permute_args', 'add_const', 'multiply'):
         p.append(('pair:' + rel, 90 * m))
     p.append(('history', 150 * m))
+    p.append(('history_siblings', 40 * m))
     return p
 
 
@@ -298,9 +299,34 @@ class Shadow:
         return out
 
 
-def case_history(ctx, rng):
+def sibling_specs(rng):
+    """Three specs that agree in everything a cache key could be built from (chain names, first / last
+    configuration, number of configurations, spacing) but have their holes and data elsewhere."""
+    e = str(rng.choice(gen.ENS_POOL))
+    g = int(rng.choice([1, 2, 3]))
+    layout = {}
+    for r in gen.rand_reps(rng, 2, allow_bare=True):
+        name = e if r is None else '%s|%s' % (e, r)
+        n = int(rng.integers(12, 40))
+        layout[name] = (int(rng.integers(1, 40)), n, n + int(rng.integers(3, n)))
+    specs = []
+    for k in range(3):
+        tab = {}
+        for name, (first, n, span) in layout.items():
+            inner = sorted(rng.choice(np.arange(1, span - 1), size=n - 2, replace=False).tolist())
+            grid = [0] + inner + [span - 1]
+            if not any(b - a == 1 for a, b in zip(grid, grid[1:])):
+                grid[1] = 1
+                grid = sorted(set(grid))
+            x = gen.rand_data(rng, len(grid), str(rng.choice(['ar', 'white'])), mean=1.0)
+            tab[name] = {int(first + g * i): float(v) for i, v in zip(grid, x)}
+        specs.append({e: tab})
+    return specs
+
+
+def case_history(ctx, rng, siblings=False):
     O = PE.Obs
-    pool_spec = [rand_spec(rng, ctx.tier, nens=int(rng.choice([1, 1, 2]))) for _ in range(3)]
+    pool_spec = sibling_specs(rng) if siblings else [rand_spec(rng, ctx.tier, nens=int(rng.choice([1, 1, 2]))) for _ in range(3)]
     # objects 1 and 2 share an ensemble name with object 0 with probability 1/2 (shared dictionary entries)
     pool = [build(s) for s in pool_spec]
     twins = [build(s) for s in pool_spec]
@@ -410,4 +436,4 @@ def run_case(ctx, kind, idx, rng):
         check_trace(ctx, TRACE[start:])
         del TRACE[:]
     else:
-        case_history(ctx, rng)
+        case_history(ctx, rng, siblings=(kind == 'history_siblings'))
